@@ -41,6 +41,7 @@ def plan(prop, tier):
     if prop == "C13":
         return [("f64", EXACT + "," + ROUND, 90 if q else 900, 3 if q else 4, 70 if q else 110, 12), ("f32", EXACT, 20 if q else 200, 3, 60, 12),
                 ("f64", "tfan,fan,tfan", 90 if q else 900, 3, 60, 12), ("f64", "cx,cxsub,cx,cxabut", 160 if q else 1600, 4, 90, 8), ("f64", "tshare,hang,cxsplit", 150 if q else 1500, 3, 60, 8),
+                ("f64", EXACT + "," + ROUND, 40 if q else 400, 3, 60, 8, "frames"), ("f32", EXACT, 15 if q else 150, 3, 50, 8, "frames"),
                 ("enum", "en:3x2:4:0_0:s", 32 if q else 2, 8), ("enum", "en:2x2:3:0_0:s", 512 if q else 32, 8), ("enum", "en:2x2:4/0:1_1:s", 32 if q else 2, 8), ("tri", 2, 840, 9 if q else 1)]
     if prop == "C14":
         return [("f64", EXACT + ",cx,rect", 110 if q else 1100, 3 if q else 4, 70 if q else 110, 6), ("f32", EXACT, 20 if q else 200, 3, 60, 6), ("f64", "tshare,tshare,cxsplit", 150 if q else 1500, 3, 60, 6),
@@ -60,10 +61,14 @@ def record(prop, tier, seed, wd):
         bseed = (seed * 7919 + bi * 13 + sum(map(ord, prop))) % (1 << 31)
         tmp = os.path.join(wd, "b.tmp")
         if b[0] in ("f64", "f32"):
-            _, fams, count, kmax, max_edges, matrix = b
+            _, fams, count, kmax, max_edges, matrix = b[:6]
             args = ["rec-stages", "--family", fams, "--count", count, "--seed", bseed, "--kmax", kmax, "--max-edges", max_edges, "--matrix", matrix, "--rid0", rid0]
             if b[0] == "f32":
                 args.append("--f32")
+            if len(b) > 6 and b[6] == "frames":
+                # the same lattice operands handed over in power-of-two frames far from the unit scale (2^+-50..80, f32 2^+-18..30) and read
+                # back exactly: whole operands shorter than the machine epsilon
+                args += ["--frames", 1]
             vlib.vh(args, tmp)
         elif b[0] == "enum":
             # every stride-th operand pair of an enumerated family (gen.rs `en:...`), all four operations
